@@ -302,10 +302,12 @@ class Check:
             "wall_s": round(time.time() - self.t0, 2),
             "violations": len(seen),
         }
-        os.makedirs(os.path.join(VERIF, "evidence"), exist_ok=True)
-        tmp = os.path.join(VERIF, "evidence", self.pid + ".json.tmp")
+        # evidence comes from runs against /repo itself; runs against a scratch copy (seeded changes) write elsewhere
+        evdir = os.path.join(VERIF, "evidence") if os.path.realpath(REPO) == "/repo" else os.path.join(VERIF, ".work", "evidence-scratch")
+        os.makedirs(evdir, exist_ok=True)
+        tmp = os.path.join(evdir, self.pid + ".json.tmp")
         json.dump(ev, open(tmp, "w"), indent=1)
-        os.replace(tmp, os.path.join(VERIF, "evidence", self.pid + ".json"))
+        os.replace(tmp, os.path.join(evdir, self.pid + ".json"))
         if self.notes and (seen or os.environ.get("VERIF_VERBOSE")):
             sys.stderr.write("\n".join(self.notes) + "\n")
         shutil.rmtree(self.work, ignore_errors=True)
